@@ -21,6 +21,11 @@ import (
 // (set by the verifsched build; nil in the plain build).
 var GlobalsFn func() []interface{}
 
+// ResetGlobals puts library-side global state that survives a call (pools of the
+// cooperative sync shim) back to its initial state; called before every
+// execution so that executions are independent and every schedule replays.
+var ResetGlobals = func() {}
+
 // Instrumented reports whether scheduling points are compiled in.
 var Instrumented = false
 
@@ -313,6 +318,7 @@ func Build(insts []*Instance, sp ScenarioSpec, thorough bool, cold bool) *sched.
 	if cold {
 		// every execution gets a new, never-read instance and its own memory watch
 		sc.Mk = func() []*sched.Thread {
+			ResetGlobals()
 			st := in.Make()
 			mw = h.NewMemWatch(roots(st)...)
 			var ths []*sched.Thread
@@ -324,7 +330,7 @@ func Build(insts []*Instance, sp ScenarioSpec, thorough bool, cold bool) *sched.
 		}
 		for _, oi := range sp.Ops {
 			body := ops[oi].Body
-			sc.Solo = append(sc.Solo, safeRun(func() string { return body(in.Make()) }))
+			sc.Solo = append(sc.Solo, safeRun(func() string { ResetGlobals(); return body(in.Make()) }))
 		}
 		sc.Changed = func() bool { return mw != nil && mw.Changed() }
 	} else {
@@ -342,6 +348,7 @@ func Build(insts []*Instance, sp ScenarioSpec, thorough bool, cold bool) *sched.
 			return st
 		}
 		sc.Mk = func() []*sched.Thread {
+			ResetGlobals()
 			st := warmed()
 			mw = h.NewMemWatch(roots(st)...)
 			var ths []*sched.Thread
@@ -353,7 +360,7 @@ func Build(insts []*Instance, sp ScenarioSpec, thorough bool, cold bool) *sched.
 		}
 		for _, oi := range sp.Ops {
 			body := ops[oi].Body
-			sc.Solo = append(sc.Solo, safeRun(func() string { return body(warmed()) }))
+			sc.Solo = append(sc.Solo, safeRun(func() string { ResetGlobals(); return body(warmed()) }))
 		}
 		sc.Changed = func() bool { return mw != nil && mw.Changed() }
 	}
